@@ -57,7 +57,8 @@ class StreamProxy:
 class Observer:
     """with Observer(fault=(url predicate, n)) as o: ...; o.events, o.all_closed()"""
 
-    def __init__(self, fault=None, stream_fault=None):
+    def __init__(self, fault=None, stream_fault=None, proxy_files=True):
+        self.proxy_files = proxy_files
         self.events = []
         self.resources = []
         self.fault = fault
@@ -69,7 +70,7 @@ class Observer:
         self._init, self._close, self._urlopen = R.__init__, R.close, urllib.request.urlopen
 
         def init(res, file, url):
-            obs._init(res, FileProxy(file, obs, url), url)
+            obs._init(res, FileProxy(file, obs, url) if obs.proxy_files else file, url)
             obs.resources.append(res)
             obs.events.append(("open", url))
 
